@@ -271,3 +271,225 @@ pub fn random_module(rng: &mut Rng) -> String {
     }
     src
 }
+
+// ------------------------------------------------------------------------------------------------ usage positions
+//
+// Seeded mutant C01-5: `NameMap::build` reserves for local variables only the names of the functions / global variables that
+// `GlobalUsageAnalysis` reports as used by some body.  If `gather_usage_*` does not descend into one syntactic position (the
+// seed: the index of `ArraySubscript`), a symbol mentioned only there is not reported, a local keeps / receives its name and
+// captures the reference in the emitted text.  This stream puts the *only* reference to a global / function of the module at
+// every position the usage analysis visits (the positions of C02's table `Model.Usage.bodyPositions` and the remaining
+// descended fields of `Gen.UsageTables.exprArms / stmtArms / initArms / forInitArms`), in two forms:
+//   (A) the symbol is literally called `B_k` and a local `B` (a word the map must rename) is in scope at the reference: if the
+//       symbol is not reported used, the local becomes `B_k` and the reference denotes the local;
+//   (B) the local is called like the symbol and the reference sits in the local's own initialiser (`int slot = v[slot];`,
+//       the seed's witness): rssl resolves the initialiser before the name exists, C / HLSL after — if the local is not renamed
+//       the emitted initialiser reads the uninitialised local.
+
+/// `$R` = an int-valued read of the symbol (`Q` for a global, `Q(2)` for a function), `$Q` = the bare name.
+/// (code, needs the vector stream, global only, statements inside f1 while the local is in scope)
+const USE_POSITIONS: [(&str, bool, bool, &str); 64] = [
+    // statements
+    ("xs", false, false, "r += $R;"),
+    ("vi", false, false, "int t = $R;\nr += t;"),
+    ("vi-second-declarator", false, false, "int t = 1, u = $R;\nr += t + u;"),
+    ("bl", false, false, "{\n    r += $R;\n}"),
+    ("bl-nested", false, false, "{\n    {\n        r += $R;\n    }\n}"),
+    ("ic", false, false, "if ($R > 5)\n{\n    r += 1;\n}"),
+    ("ib", false, false, "if (x > -100)\n{\n    r += $R;\n}"),
+    ("ec", false, false, "if ($R > 5)\n{\n    r += 1;\n}\nelse\n{\n    r += 2;\n}"),
+    ("et", false, false, "if (y > 0)\n{\n    r += $R;\n}\nelse\n{\n    r += 2;\n}"),
+    ("ee", false, false, "if (y > 0)\n{\n    r += 2;\n}\nelse\n{\n    r += $R;\n}"),
+    ("ee-elseif-cond", false, false, "if (y > 50)\n{\n    r += 2;\n}\nelse if ($R > 5)\n{\n    r += 3;\n}"),
+    ("fi", false, false, "int i = 0;\nfor (i = $R & 3; i < 5; ++i)\n{\n    r += i;\n}"),
+    ("fd", false, false, "for (int i = $R & 3; i < 5; ++i)\n{\n    r += i;\n}"),
+    ("fd-second", false, false, "for (int i = 0, j = $R & 3; i < j + 2; ++i)\n{\n    r += i + j;\n}"),
+    ("fc", false, false, "for (int i = 0; i < ($R & 3); ++i)\n{\n    r += 2;\n}"),
+    ("fa", false, false, "for (int i = 0; i < 4; i += ($R & 1) + 1)\n{\n    r += 2;\n}"),
+    ("fb", false, false, "for (int i = 0; i < 2; ++i)\n{\n    r += $R;\n}"),
+    ("wc", false, false, "int i = 0;\nwhile (i < ($R & 3))\n{\n    ++i;\n    r += 2;\n}"),
+    ("wb", false, false, "int i = 0;\nwhile (i < 2)\n{\n    ++i;\n    r += $R;\n}"),
+    ("db", false, false, "int i = 0;\ndo\n{\n    ++i;\n    r += $R;\n}\nwhile (i < 2);"),
+    ("dc", false, false, "int i = 0;\ndo\n{\n    ++i;\n    r += 2;\n}\nwhile (i < ($R & 3));"),
+    ("sx", false, false, "switch ($R & 3)\n{\n    case 2:\n    r += 1;\n    break;\n    default:\n    r += 7;\n    break;\n}"),
+    ("sb", false, false, "switch (x & 1)\n{\n    case 0:\n    r += $R;\n    break;\n    default:\n    r -= $R;\n    break;\n}"),
+    ("rt", false, false, "return r + $R;"),
+    ("rt-in-if", false, false, "if (y > 0)\n{\n    return $R;\n}"),
+    // expressions
+    ("tc", false, false, "r += ($R > 5) ? 3 : 4;"),
+    ("tt", false, false, "r += (y > 0) ? $R : 4;"),
+    ("tf", false, false, "r += (y > 0) ? 4 : $R;"),
+    ("sq-last", false, false, "r += (x += 1, $R);"),
+    ("sq-first", false, false, "r += ($R, x);"),
+    ("ia", false, false, "r += twice($R);"),
+    ("ia-nested", false, false, "r += twice(twice($R));"),
+    ("ia-second", false, false, "r += add2(x, $R);"),
+    ("ia-builtin", false, false, "r += abs($R);"),
+    ("ia-builtin-second", false, false, "r += max(x, $R);"),
+    ("cs", false, false, "r += (int)(float)$R;"),
+    ("cs-bool", false, false, "r += ((bool)$R) ? 1 : 2;"),
+    ("op-neg", false, false, "r += -$R;"),
+    ("op-left", false, false, "r += $R * 2;"),
+    ("op-right", false, false, "r += 2 * $R;"),
+    ("op-assign", false, false, "r = $R;"),
+    ("op-and", false, false, "r += (x > 0 && $R > 5) ? 1 : 2;"),
+    ("op-or", false, false, "r += (x > 0 || $R > 5) ? 1 : 2;"),
+    ("op-deep", false, false, "r += ((x + 1) * (y - (3 + ($R ^ 1))));"),
+    // the global is written (left operand of an assignment, ++ / --, out / inout argument)
+    ("wr", false, true, "$Q = r;"),
+    ("wr-compound", false, true, "$Q += 2;"),
+    ("wr-preinc", false, true, "++$Q;"),
+    ("wr-postinc", false, true, "r += $Q++;"),
+    ("wr-inout", false, true, "bump($Q);"),
+    ("wr-out", false, true, "setout($Q);"),
+    // vector stream: arrays, vectors, constructors, aggregates, structs, methods
+    ("si", true, false, "int v[4] = { 1, 2, 3, 4 };\nr += v[$R & 3];"),
+    ("si-direct", true, false, "int v[8] = { 1, 2, 3, 4, 5, 6, 7, 8 };\nr += v[($R + x) & 7];"),
+    ("si-write", true, false, "int v[4] = { 1, 2, 3, 4 };\nv[$R & 3] = 7;\nr += v[0] + v[1] * 2 + v[2] * 3 + v[3] * 4;"),
+    ("si-vector", true, false, "int4 w = int4(1, 2, 3, 4);\nr += w[$R & 3];"),
+    ("si-nested", true, false, "int v[4] = { 1, 2, 3, 0 };\nr += v[v[$R & 3]];"),
+    ("ct", true, false, "int2 c = int2(x, $R);\nr += c.y;"),
+    ("sw-ct", true, false, "r += int2(x, $R).y;"),
+    ("sw-cast", true, false, "r += ((int3)$R).z;"),
+    ("ai", true, false, "int a2[2] = { x, $R };\nr += a2[1];"),
+    ("ai-struct", true, false, "Pair s = { x, $R };\nr += s.n;"),
+    ("ia-method", true, false, "Pair s = { x, 1 };\nr += s.get($R);"),
+    ("sm-of-call", true, false, "r += mk($R).n;"),
+    ("da", true, false, "r += dflt(x);"),
+    // the default argument mentions the symbol while an earlier *parameter* of the same function is the renamed local
+    ("da-param", true, false, "r += dflt(x);"),
+];
+
+/// (B): `int Q = <E>;` — the reference sits in the initialiser of a local called like the symbol
+const OWN_INIT: [(&str, bool, &str, &str); 20] = [
+    ("own:vi", false, "", "int $Q = $R + 1;"),
+    ("own:neg", false, "", "int $Q = -$R;"),
+    ("own:tc", false, "", "int $Q = ($R > 5) ? 3 : 4;"),
+    ("own:tt", false, "", "int $Q = (y > 0) ? $R : 4;"),
+    ("own:tf", false, "", "int $Q = (y > 0) ? 4 : $R;"),
+    ("own:sq", false, "", "int $Q = (x += 1, $R);"),
+    ("own:ia", false, "", "int $Q = twice($R);"),
+    ("own:ia-nested", false, "", "int $Q = twice(twice($R));"),
+    ("own:ia-builtin", false, "", "int $Q = max(x, $R);"),
+    ("own:cs", false, "", "int $Q = (int)(float)$R;"),
+    ("own:second-declarator", false, "", "int t = 1, $Q = $R + t;"),
+    ("own:fd", false, "", "for (int $Q = $R & 3; $Q < 5; ++$Q)\n{\n    r += $Q;\n}\nint $Q = 1;"),
+    ("own:inner-block", false, "", "int t = 0;\n{\n    int $Q = $R + 1;\n    t = $Q;\n}\nint $Q = t;"),
+    ("own:si", true, "int v[4] = { 1, 2, 3, 4 };", "int $Q = v[$R & 3];"),
+    ("own:si-vector", true, "int4 w = int4(1, 2, 3, 4);", "int $Q = w[$R & 3];"),
+    ("own:si-nested", true, "int v[4] = { 1, 2, 3, 0 };", "int $Q = v[v[$R & 3]];"),
+    ("own:sw-ct", true, "", "int $Q = int2(x, $R).y;"),
+    ("own:ct", true, "", "int2 c = int2(x, $R);\nint $Q = c.y;"),
+    ("own:ai-struct", true, "Pair s = { x, 1 };", "int $Q = s.get($R);"),
+    ("own:sm-of-call", true, "", "int $Q = mk($R).n;"),
+];
+
+/// (code, definition of the global `$Q`, statements): the global is the object of a subscript / swizzle / member access
+const OBJECT_POSITIONS: [(&str, &str, &str); 9] = [
+    ("ab", "static int $Q[4] = { 6, 7, 8, 9 };", "r += $Q[1];"),
+    ("ab-dynamic", "static int $Q[4] = { 6, 7, 8, 9 };", "r += $Q[x & 3];"),
+    ("ab-write", "static int $Q[4] = { 6, 7, 8, 9 };", "$Q[2] = r;"),
+    ("ab-index-both", "static int $Q[4] = { 2, 7, 8, 9 };", "r += $Q[$Q[0] & 3];"),
+    ("sw", "static int2 $Q = int2(6, 9);", "r += $Q.y;"),
+    ("sw-write", "static int2 $Q = int2(6, 9);", "$Q.x = r;"),
+    ("mx", "static float2x2 $Q = float2x2(1.0f, 2.0f, 3.0f, 4.0f);", "r += (int)$Q._m01;"),
+    ("sm", "static Pair $Q = { 6, 9 };", "r += $Q.n;"),
+    ("sm-method", "static Pair $Q = { 6, 9 };", "r += $Q.get(1);"),
+];
+
+const USE_HELPERS: &str = "int twice(int a)\n{\n    return a * 2;\n}\n\nint add2(int a, int b)\n{\n    return a + b * 3;\n}\n\nvoid bump(inout int a)\n{\n    a += 1;\n}\n\nvoid setout(out int a)\n{\n    a = 17;\n}\n\n";
+const USE_VHELPERS: &str = "struct Pair\n{\n    int m;\n    int n;\n\n    int get(int k)\n    {\n        return m * 2 + n + k;\n    }\n};\n\nPair mk(int a)\n{\n    Pair p = { 1, a };\n    return p;\n}\n\n";
+
+fn indent(lines: &str) -> String {
+    lines.lines().map(|l| format!("    {}\n", l)).collect()
+}
+
+fn symbol_def(q: &str, function: bool) -> String {
+    if function {
+        format!("int {q}(int a)\n{{\n    return a + 100;\n}}\n\n")
+    } else {
+        format!("static int {q} = 6;\n\n")
+    }
+}
+
+/// (shape, source, vector stream?): the function under test is `f1(int x, int y)`
+pub fn usage_stream() -> Vec<(String, String, bool)> {
+    let mut out = Vec::new();
+    // (A) a renamed local `B` in scope, the symbol is called `B_k`
+    for (bi, b) in ["pass", "texture", "min"].iter().enumerate() {
+        for function in [false, true] {
+            for k in 0..2usize {
+                for (pi, (code, vector, global_only, body)) in USE_POSITIONS.iter().enumerate() {
+                    if (*global_only && function) || (bi > 0 && (pi + bi + k) % 3 != 0) {
+                        continue;
+                    }
+                    let q = format!("{}_{}", b, k);
+                    let r = if function { format!("{}(2)", q) } else { q.clone() };
+                    let mut src = String::new();
+                    src.push_str(USE_HELPERS);
+                    if *vector {
+                        src.push_str(USE_VHELPERS);
+                    }
+                    src.push_str(&symbol_def(&q, function));
+                    if *code == "da" {
+                        src.push_str(&format!("int dflt(int a, int b = {r})\n{{\n    return a * 2 + b;\n}}\n\n"));
+                    }
+                    if *code == "da-param" {
+                        src.push_str(&format!("int dflt(int {b}, int b = {r})\n{{\n    return {b} * 2 + b;\n}}\n\n"));
+                    }
+                    src.push_str(&consumers(b, k));
+                    let stmts = body.replace("$R", &r).replace("$Q", &q);
+                    let after = if *code == "rt" { String::new() } else { format!("    r -= {b};\n    return r;\n") };
+                    src.push_str(&format!(
+                        "int f1(int x, int y)\n{{\n    int r = x;\n    int {b} = y + 5;\n    r += {b} * 3;\n{}{}}}\n",
+                        indent(&stmts),
+                        after
+                    ));
+                    out.push((format!("use:{}:{}:{}:k{}", code, if function { "function" } else { "global" }, b, k), src, *vector));
+                }
+            }
+        }
+    }
+    // (A') the symbol is a global of array / vector / matrix / struct type and the reference is the *object* field of a
+    // subscript / swizzle / matrix swizzle / member access (C02's `readPaths`)
+    for b in ["pass", "vector"] {
+        for k in 0..2usize {
+            for (code, def, body) in OBJECT_POSITIONS.iter() {
+                let q = format!("{}_{}", b, k);
+                let mut src = String::new();
+                src.push_str(USE_HELPERS);
+                src.push_str(USE_VHELPERS);
+                src.push_str(&def.replace("$Q", &q));
+                src.push_str("\n\n");
+                src.push_str(&consumers(b, k));
+                src.push_str(&format!(
+                    "int f1(int x, int y)\n{{\n    int r = x;\n    int {b} = y + 5;\n    r += {b} * 3;\n{}    r -= {b};\n    return r;\n}}\n",
+                    indent(&body.replace("$Q", &q))
+                ));
+                out.push((format!("obj:{}:global:{}:k{}", code, b, k), src, true));
+            }
+        }
+    }
+    // (B) the local is called like the symbol and mentions it in its own initialiser
+    for q in ["slot", "gv2"] {
+        for function in [false, true] {
+            for (code, vector, pre, body) in OWN_INIT.iter() {
+                let r = if function { format!("{}(2)", q) } else { q.to_string() };
+                let mut src = String::new();
+                src.push_str(USE_HELPERS);
+                if *vector {
+                    src.push_str(USE_VHELPERS);
+                }
+                src.push_str(&symbol_def(q, function));
+                let stmts = format!("{}{}{}", pre, if pre.is_empty() { "" } else { "\n" }, body).replace("$R", &r).replace("$Q", q);
+                src.push_str(&format!("int f1(int x, int y)\n{{\n    int r = x;\n{}    r += {q} * 3;\n    return r;\n}}\n", indent(&stmts)));
+                out.push((format!("{}:{}:{}", code, if function { "function" } else { "global" }, q), src, *vector));
+            }
+        }
+    }
+    out
+}
+
+pub fn vgrid_text() -> String {
+    GRID.iter().map(|(a, b)| format!("i:{:08x},i:{:08x}", *a as u32, *b as u32)).collect::<Vec<_>>().join(";")
+}
